@@ -48,9 +48,12 @@ def make_conn(noise: bool, rng, debug: bool = False):
                                      client_info="verif", log_name="verif")
         helper.connection_made(tr)
         dev = noisedev.NoiseDevice(psk, b"dev")
-        assert dev.read_client_hello(tr.writes.pop(0))
+        import common
+        if not dev.read_client_hello(tr.writes.pop(0)):
+            raise common.LibraryMisbehaved("noise-handshake", "the client's handshake message does not authenticate under the shared key")
         helper.data_received(noisedev.frame(dev.hello_body()) + noisedev.frame(dev.handshake_body()))
-        assert helper.ready_future.done() and helper.ready_future.exception() is None
+        if not (helper.ready_future.done() and helper.ready_future.exception() is None):
+            raise common.LibraryMisbehaved("noise-handshake", "the helper is not ready after a conformant responder's hello and handshake frames")
     else:
         helper = APIPlaintextFrameHelper(connection=conn, client_info="verif", log_name="verif")
         helper.connection_made(tr)
